@@ -1,14 +1,15 @@
-import N0Verif.Proofs.Xml
+import N0Verif.Proofs.XmlLists
 /-!
 # C12 — XML export is well-formed and loads back to the same tree
 
-Only property statements live here; helper lemmas are in `Proofs/Xml.lean`.
+Only property statements live here; helper lemmas are in `Proofs/Xml.lean` (reader machine, one
+element) and `Proofs/XmlLists.lean` (repeated elements, the induction over trees, `@` keys).
 
 **Partial by nature.**  The XML parser (expat) and `xmltodict` are external code.  `xmlRead` is a
 reader for exactly the fragment the writer emits, fused with `xmltodict`'s element handler; it is
 the *meaning* given here to "well-formed" and "loads back" and is tied to the real parser only
 differentially (harness streams `xml.load`, `xml.read`).  The writer `toXml` is the model of
-`n0dict_.to_xml`/`__xml` (with the fixes C12-a, C12-c applied), its constants are regenerated
+`n0dict_.to_xml`/`__xml` (with the fixes C12-a, C12-c, C12-d, C12-b applied, in this order), its constants are regenerated
 from the source on every run (`Gen/XmlConsts.lean`).
 -/
 namespace N0.C12
@@ -60,60 +61,99 @@ theorem C12_text_escaped_any_table (tb : List (Nat × Str)) (htb : tableOk tb = 
   exact xmlRead_of_elem _ _ c (cs ++ '>' :: (escape tb s ++ closeTag (c :: cs)))
     (by simp [openTag, List.append_assoc]) hq hre
 
-/-! ## full statements (repeated elements included) -/
+/-! ## the property, full strength: every XML-shaped tree, repeated elements included
 
-/-- full strength: every XML-shaped tree, lists of text and of records included -/
-def C12_wellformed_stmt : Prop :=
-  ∀ (o : Opts) (t : Val), isGoodOpts o = true → xmlShaped true t = true →
-    ∃ s, toXml Cfg.gen o t = .ok s ∧ WellFormed s
+`xmlShaped true t`: one root element that is not itself repeated; ASCII element names, unique per
+record; values are text over XML characters, `None`, numbers, nested records and **repeated
+elements** -- non-empty lists whose items are text, records, `None` or numbers (anything but a list). -/
 
-def C12_roundtrip_stmt : Prop :=
-  ∀ (o : Opts) (t : Val), isGoodOpts o = true → xmlShaped true t = true →
-    ∃ s, toXml Cfg.gen o t = .ok s ∧ loadXml s = .ok (normRoot Cfg.gen t)
-
-def C12_layout_only_stmt : Prop :=
-  ∀ (o o' : Opts) (t : Val), isGoodOpts o = true → isGoodOpts o' = true → xmlShaped true t = true →
-    ∃ s s', toXml Cfg.gen o t = .ok s ∧ toXml Cfg.gen o' t = .ok s' ∧ loadXml s = loadXml s'
-
-/-! ## what is proved: trees without lists -/
-
-/-- **C12 (well-formed), list-free part.**  For every XML-shaped tree without lists (one root
-element, ASCII names, text over XML characters, numbers, `None`, nested dicts — the layout keys
-`Parm`/`ParmCode`/`Value` and CDATA values included), every indent, either quote and every
-encoding name, `to_xml` succeeds and the reader accepts the document. -/
-theorem C12_wellformed_partial (o : Opts) (t : Val) (ho : isGoodOpts o = true) (ht : xmlShaped false t = true) :
+/-- **C12 (well-formed).**  For every XML-shaped tree, every indent, either quote and every encoding
+name, `to_xml` succeeds and the reader accepts the document. -/
+theorem C12_wellformed (o : Opts) (t : Val) (ho : isGoodOpts o = true) (ht : xmlShaped true t = true) :
     ∃ s, toXml Cfg.gen o t = .ok s ∧ WellFormed s := by
-  obtain ⟨s, e, h1, h2, _⟩ := toXml_reads Cfg.gen C12_config_ok o ho t ht
+  obtain ⟨s, e, h1, h2, _⟩ := toXml_reads Cfg.gen C12_config_ok o ho true t ht
   exact ⟨s, h1, e, h2⟩
 
-/-- **C12 (round trip), list-free part.**  Loading the export gives the tree up to XML's
-normalisations (`normRoot`: numbers become text, `''`/`{}`/`None` coincide, surrounding white space
-is dropped, a CDATA value stands for its content). -/
-theorem C12_roundtrip_partial (o : Opts) (t : Val) (ho : isGoodOpts o = true) (ht : xmlShaped false t = true) :
+/-- **C12 (round trip).**  Loading the export gives the tree up to XML's normalisations
+(`normRoot`: numbers become text, `''`/`{}`/`None` coincide, surrounding white space is dropped, a
+CDATA value stands for its content, a list of two or more items comes back as the plain list of the
+normalised items and a list of one item as the item itself -- `C12_norm_one_item`,
+`C12_norm_repeated`). -/
+theorem C12_roundtrip (o : Opts) (t : Val) (ho : isGoodOpts o = true) (ht : xmlShaped true t = true) :
     ∃ s, toXml Cfg.gen o t = .ok s ∧ loadXml s = .ok (normRoot Cfg.gen t) := by
-  obtain ⟨s, e, h1, h2, h3, h4, h5⟩ := toXml_reads Cfg.gen C12_config_ok o ho t ht
+  obtain ⟨s, e, h1, h2, h3, h4, h5⟩ := toXml_reads Cfg.gen C12_config_ok o ho true t ht
   exact ⟨s, h1, by rw [loadXml_of_read h4 h5 h2, h3]⟩
 
-/-- **C12 (options), list-free part.**  indent, encoding and quote change the layout only: both
-documents load to the same tree. -/
-theorem C12_layout_only_partial (o o' : Opts) (t : Val) (ho : isGoodOpts o = true) (ho' : isGoodOpts o' = true)
-    (ht : xmlShaped false t = true) :
+/-- **C12 (options).**  indent, encoding and quote change the layout only: both documents load to
+the same tree. -/
+theorem C12_layout_only (o o' : Opts) (t : Val) (ho : isGoodOpts o = true) (ho' : isGoodOpts o' = true)
+    (ht : xmlShaped true t = true) :
     ∃ s s', toXml Cfg.gen o t = .ok s ∧ toXml Cfg.gen o' t = .ok s' ∧ loadXml s = loadXml s' := by
-  obtain ⟨s, h1, h2⟩ := C12_roundtrip_partial o t ho ht
-  obtain ⟨s', h1', h2'⟩ := C12_roundtrip_partial o' t ho' ht
+  obtain ⟨s, h1, h2⟩ := C12_roundtrip o t ho ht
+  obtain ⟨s', h1', h2'⟩ := C12_roundtrip o' t ho' ht
   exact ⟨s, s', h1, h1', by rw [h2, h2']⟩
 
 /-- the three theorems hold for every configuration that passes the decidable side condition
-(so a harmless change of the table, e.g. adding `'` -> `&apos;`, re-proves itself) -/
-theorem C12_roundtrip_any_config (cfg : Cfg) (hcfg : cfgOk cfg = true) (o : Opts) (t : Val)
-    (ho : isGoodOpts o = true) (ht : xmlShaped false t = true) :
+(so a harmless change of the table, e.g. adding `'` -> `&apos;`, re-proves itself), with or without
+repeated elements in the quantifier -/
+theorem C12_roundtrip_any_config (cfg : Cfg) (hcfg : cfgOk cfg = true) (o : Opts) (lists : Bool) (t : Val)
+    (ho : isGoodOpts o = true) (ht : xmlShaped lists t = true) :
     ∃ s, toXml cfg o t = .ok s ∧ WellFormed s ∧ loadXml s = .ok (normRoot cfg t) := by
-  obtain ⟨s, e, h1, h2, h3, h4, h5⟩ := toXml_reads cfg hcfg o ho t ht
+  obtain ⟨s, e, h1, h2, h3, h4, h5⟩ := toXml_reads cfg hcfg o ho lists t ht
   exact ⟨s, h1, ⟨e, h2⟩, by rw [loadXml_of_read h4 h5 h2, h3]⟩
 
-/-! ## counter-examples: repeated elements (findings C12-b, C12-d) -/
+/-! ## the normal form of a repeated element (`xmltodict`'s convention, part of `normalise`) -/
+
+/-- a list of one item loads back as the item itself: XML cannot tell `<a>x</a>` from a one-item
+repetition -/
+theorem C12_norm_one_item (cfg : Cfg) (c : Cls) (x : Val) : normalise cfg (.list c [x]) = normalise cfg x := by
+  simp [normalise, normList]
+
+/-- two or more items load back as the plain list of the normalised items -/
+theorem C12_norm_repeated (cfg : Cfg) (c : Cls) (x y : Val) (xs : List Val) :
+    normalise cfg (.list c (x :: y :: xs)) = .list .plain (normalise cfg x :: normalise cfg y :: normList cfg xs) := by
+  simp [normalise, normList]
+
+/-! ## the boundary: attributes (`@` keys) and `#text` are not exported -/
+
+/-- **C12 (attributes).**  A record with an `@` key holding text or a number -- after any number of
+XML-shaped entries, whatever follows -- cannot be exported: `to_xml` raises `NotImplementedError`
+(the branch "Export of attibtures is not supported yet").  So `xmltodict`'s attribute convention
+is outside the writer, and `xmlShaped` rightly allows names only. -/
+theorem C12_attribute_not_implemented (o : Opts) (c c' : Cls) (r k : Str) (pre rest : List (Str × Val)) (v : Val)
+    (hn : keysNodup pre = true) (hs : shapedKvs true pre = true) (hv : isScalarVal v = true) :
+    toXml Cfg.gen o (.dict c [(r, .dict c' (pre ++ ('@' :: k, v) :: rest))]) = .error .NotImplementedError :=
+  toXml_attr_not_implemented Cfg.gen C12_config_ok o true c c' r k pre rest v hn hs hv
 
 def optsDefault : Opts := { indent := 4, encoding := some ['u', 't', 'f', '-', '8'], quote := ['"'] }
+
+/-- `{'r': {'@id': None, 'a': 'x'}}` -/
+def attrNone : Val :=
+  .dict .n0 [(['r'], .dict .plain [(['@', 'i', 'd'], .none), (['a'], .str ['x'])])]
+
+/-- its export: the attribute value is `str(None)` and the key is written once more as an element
+`<@id/>`, which is not a name -/
+def attrNoneXml : Str :=
+  ['<', '?', 'x', 'm', 'l', ' ', 'v', 'e', 'r', 's', 'i', 'o', 'n', '=', '"', '1', '.', '0', '"', ' ', 'e', 'n', 'c', 'o', 'd', 'i', 'n', 'g', '=', '"', 'u', 't', 'f', '-', '8', '"', '?', '>', '\n', '<', 'r', ' ', 'i', 'd', '=', '"', 'N', 'o', 'n', 'e', '"', '>', '\n', ' ', ' ', ' ', ' ', '<', '@', 'i', 'd', '/', '>', '\n', ' ', ' ', ' ', ' ', '<', 'a', '>', 'x', '<', '/', 'a', '>', '\n', '<', '/', 'r', '>']
+
+/-- an `@` key holding `None` does not raise; the document has the attribute `id="None"` *and* an
+element `<@id/>` (no XML parser accepts it: checked on the implementation only, attributes are
+outside the reader model) -/
+theorem C12_attribute_none_text : toXml Cfg.gen optsDefault attrNone = .ok attrNoneXml := by decide +kernel
+
+/-- `{'r': {'#text': 'x'}}` -/
+def hashText : Val :=
+  .dict .n0 [(['r'], .dict .plain [(['#', 't', 'e', 'x', 't'], .str ['x'])])]
+
+def hashTextXml : Str :=
+  ['<', '?', 'x', 'm', 'l', ' ', 'v', 'e', 'r', 's', 'i', 'o', 'n', '=', '"', '1', '.', '0', '"', ' ', 'e', 'n', 'c', 'o', 'd', 'i', 'n', 'g', '=', '"', 'u', 't', 'f', '-', '8', '"', '?', '>', '\n', '<', 'r', '>', '<', '#', 't', 'e', 'x', 't', '>', 'x', '<', '/', '#', 't', 'e', 'x', 't', '>', '<', '/', 'r', '>']
+
+/-- `xmltodict`'s `#text` key is written as an element `<#text>`: the reader (like expat) rejects it -/
+theorem C12_hash_text_cex :
+    toXml Cfg.gen optsDefault hashText = .ok hashTextXml ∧ readStatus hashTextXml = some .malformed := by
+  decide +kernel
+
+/-! ## the former list export (findings C12-b, C12-d, fixed) -/
 
 /-- `{'r': {'a': ['x', 'y']}}` -/
 def listWitness : Val :=
@@ -123,47 +163,40 @@ def listWitness : Val :=
 def listTextWitness : Val :=
   .dict .n0 [(['r'], .dict .plain [(['a'], .list .plain [.str ['<']])])]
 
-/-- `to_xml()` of `listWitness` -/
-def listWitnessXml : Str :=
+/-- what the pinned tree wrote for `listWitness`: one wrapper element `<a>\nx\ny\n    </a>` -/
+def listWrapperXml : Str :=
   ['<', '?', 'x', 'm', 'l', ' ', 'v', 'e', 'r', 's', 'i', 'o', 'n', '=', '"', '1', '.', '0', '"', ' ', 'e', 'n', 'c', 'o', 'd', 'i', 'n', 'g', '=', '"', 'u', 't', 'f', '-', '8', '"', '?', '>', '\n', '<', 'r', '>', '\n', ' ', ' ', ' ', ' ', '<', 'a', '>', '\n', 'x', '\n', 'y', '\n', ' ', ' ', ' ', ' ', '<', '/', 'a', '>', '\n', '<', '/', 'r', '>']
 
-/-- `to_xml()` of `listTextWitness` -/
-def listTextWitnessXml : Str :=
+/-- what the pinned tree wrote for `listTextWitness`: a raw `<` inside `<a>` -/
+def listTextRawXml : Str :=
   ['<', '?', 'x', 'm', 'l', ' ', 'v', 'e', 'r', 's', 'i', 'o', 'n', '=', '"', '1', '.', '0', '"', ' ', 'e', 'n', 'c', 'o', 'd', 'i', 'n', 'g', '=', '"', 'u', 't', 'f', '-', '8', '"', '?', '>', '\n', '<', 'r', '>', '\n', ' ', ' ', ' ', ' ', '<', 'a', '>', '\n', '<', '\n', ' ', ' ', ' ', ' ', '<', '/', 'a', '>', '\n', '<', '/', 'r', '>']
 
-theorem listWitness_xml : toXml Cfg.gen optsDefault listWitness = .ok listWitnessXml := by decide
+/-- `listWitness.to_xml()` now: one element per item -/
+def listWitnessXml : Str :=
+  ['<', '?', 'x', 'm', 'l', ' ', 'v', 'e', 'r', 's', 'i', 'o', 'n', '=', '"', '1', '.', '0', '"', ' ', 'e', 'n', 'c', 'o', 'd', 'i', 'n', 'g', '=', '"', 'u', 't', 'f', '-', '8', '"', '?', '>', '\n', '<', 'r', '>', '\n', ' ', ' ', ' ', ' ', '<', 'a', '>', 'x', '<', '/', 'a', '>', '\n', ' ', ' ', ' ', ' ', '<', 'a', '>', 'y', '<', '/', 'a', '>', '\n', '<', '/', 'r', '>']
 
-theorem listTextWitness_xml : toXml Cfg.gen optsDefault listTextWitness = .ok listTextWitnessXml := by decide
+/-- `listTextWitness.to_xml()` now -/
+def listTextWitnessXml : Str :=
+  ['<', '?', 'x', 'm', 'l', ' ', 'v', 'e', 'r', 's', 'i', 'o', 'n', '=', '"', '1', '.', '0', '"', ' ', 'e', 'n', 'c', 'o', 'd', 'i', 'n', 'g', '=', '"', 'u', 't', 'f', '-', '8', '"', '?', '>', '\n', '<', 'r', '>', '<', 'a', '>', '&', 'l', 't', ';', '<', '/', 'a', '>', '<', '/', 'r', '>']
 
-/-- what the merged list loads as: `{'r': {'a': 'x\ny'}}` -/
-theorem C12_list_merged_value :
-    loadXml listWitnessXml = .ok (.dict .n0 [(['r'], .dict .n0 [(['a'], .str ['x', '\n', 'y'])])]) := by decide +kernel
+theorem listWitness_xml : toXml Cfg.gen optsDefault listWitness = .ok listWitnessXml := by decide +kernel
 
-/-- **C12-b.**  A list is written inside one wrapper element and loads back merged:
-`{'r': {'a': ['x', 'y']}}` comes back as `{'r': {'a': 'x\ny'}}`. -/
-theorem C12_list_merged_cex : ¬ C12_roundtrip_stmt := by
-  intro h
-  obtain ⟨s, h1, h2⟩ := h optsDefault listWitness (by decide) (by decide)
-  rw [listWitness_xml] at h1
-  injection h1 with h1
-  subst h1
-  rw [C12_list_merged_value] at h2
-  revert h2
-  decide
+theorem listTextWitness_xml : toXml Cfg.gen optsDefault listTextWitness = .ok listTextWitnessXml := by decide +kernel
 
-/-- the reader (like expat) rejects the export of `{'r': {'a': ['<']}}` -/
-theorem C12_list_text_unescaped_status : readStatus listTextWitnessXml = some .malformed := by decide
+/-- **C12-b (fixed).**  The wrapper form loads back merged, `{'r': {'a': 'x\ny'}}`, which is not the
+normal form of the tree; the export of the repaired writer loads back as the list. -/
+theorem C12_list_wrapper_merged_cex :
+    loadXml listWrapperXml = .ok (.dict .n0 [(['r'], .dict .n0 [(['a'], .str ['x', '\n', 'y'])])]) ∧
+    loadXml listWrapperXml ≠ .ok (normRoot Cfg.gen listWitness) ∧
+    loadXml listWitnessXml = .ok (.dict .n0 [(['r'], .dict .n0 [(['a'], .list .plain [.str ['x'], .str ['y']])])]) := by
+  decide +kernel
 
-/-- **C12-d.**  Text items of a list are written unescaped: `{'r': {'a': ['<']}}` is exported as
-an ill-formed document. -/
-theorem C12_list_text_unescaped_cex : ¬ C12_wellformed_stmt := by
-  intro h
-  obtain ⟨s, h1, e, h2⟩ := h optsDefault listTextWitness (by decide) (by decide)
-  rw [listTextWitness_xml] at h1
-  injection h1 with h1
-  subst h1
-  have := C12_list_text_unescaped_status
-  simp [readStatus, h2] at this
+/-- **C12-d (fixed).**  The reader (like expat) rejects the document with the raw `<`; the export
+of the repaired writer is accepted and loads back as the text (a one-item list: the item). -/
+theorem C12_list_text_unescaped_cex :
+    readStatus listTextRawXml = some .malformed ∧
+    loadXml listTextWitnessXml = .ok (.dict .n0 [(['r'], .dict .n0 [(['a'], .str ['<'])])]) := by
+  decide +kernel
 
 /-! ## non-vacuity -/
 
@@ -205,7 +238,40 @@ example : normRoot Cfg.gen exTree =
       (['f'], .str ['1', '.', '5']),
       (['d'], .dict .n0 [(['e'], .str ['a', '\n', 'b']), (['z'], .none)])])] := by decide
 example : isName ['P', 'a', 'r', 'm'] = true ∧ isXmlText ['<', '&', '"', '\'', '>', ']', ']', '>', Char.ofNat 0x20AC] = true := by decide
-/-- lists are inside the full statements' quantifier -/
-example : xmlShaped true listWitness = true ∧ xmlShaped false listWitness = false := by decide
+/-- lists are inside the quantifier; `xmlShaped false` is the list-free part of it -/
+example : xmlShaped true listWitness = true ∧ xmlShaped false listWitness = false ∧ xmlShaped true exTree = true := by decide
+
+/-- `{'r': {'a': ['<&', 'y'], 'one': ['x'], 'Parm': [{'ParmCode': 'x', 'Value': True}, {'ParmCode': 'p', 'Value': None}],
+'rec': [{'k': '1', 'l': ['u', ' v ']}, {}], 'mix': [None, 7, '<![CDATA[ x<y ]]>'], 'n': 'end'}}`:
+repeated text (escaped), a one-item list, repeated records under a layout key, records holding a
+repeated element, an empty record as item, mixed items -/
+def exListTree : Val :=
+  .dict .n0 [(['r'], .dict .plain [(['a'], .list .plain [.str ['<', '&'], .str ['y']]), (['o', 'n', 'e'], .list .plain [.str ['x']]), (['P', 'a', 'r', 'm'], .list .plain [.dict .plain [(['P', 'a', 'r', 'm', 'C', 'o', 'd', 'e'], .str ['x']), (['V', 'a', 'l', 'u', 'e'], .bool true)], .dict .plain [(['P', 'a', 'r', 'm', 'C', 'o', 'd', 'e'], .str ['p']), (['V', 'a', 'l', 'u', 'e'], .none)]]), (['r', 'e', 'c'], .list .plain [.dict .plain [(['k'], .str ['1']), (['l'], .list .plain [.str ['u'], .str [' ', 'v', ' ']])], .dict .plain []]), (['m', 'i', 'x'], .list .plain [.none, .int 7, .str ['<', '!', '[', 'C', 'D', 'A', 'T', 'A', '[', ' ', 'x', '<', 'y', ' ', ']', ']', '>']]), (['n'], .str ['e', 'n', 'd'])])]
+
+/-- `exListTree.to_xml()` -/
+def exListTreeXml : Str :=
+  ['<', '?', 'x', 'm', 'l', ' ', 'v', 'e', 'r', 's', 'i', 'o', 'n', '=', '"', '1', '.', '0', '"', ' ', 'e', 'n', 'c', 'o', 'd', 'i', 'n', 'g', '=', '"', 'u', 't', 'f', '-', '8', '"', '?', '>', '\n', '<', 'r', '>', '\n', ' ', ' ', ' ', ' ', '<', 'a', '>', '&', 'l', 't', ';', '&', 'a', 'm', 'p', ';', '<', '/', 'a', '>', '\n', ' ', ' ', ' ', ' ', '<', 'a', '>', 'y', '<', '/', 'a', '>', '\n', ' ', ' ', ' ', ' ', '<', 'o', 'n', 'e', '>', 'x', '<', '/', 'o', 'n', 'e', '>', ' ', ' ', ' ', ' ', '<', 'P', 'a', 'r', 'm', '>', '<', 'P', 'a', 'r', 'm', 'C', 'o', 'd', 'e', '>', 'x', '<', '/', 'P', 'a', 'r', 'm', 'C', 'o', 'd', 'e', '>', '<', 'V', 'a', 'l', 'u', 'e', '>', 'T', 'r', 'u', 'e', '<', '/', 'V', 'a', 'l', 'u', 'e', '>', '<', '/', 'P', 'a', 'r', 'm', '>', ' ', ' ', ' ', ' ', '<', 'P', 'a', 'r', 'm', '>', '<', 'P', 'a', 'r', 'm', 'C', 'o', 'd', 'e', '>', 'p', '<', '/', 'P', 'a', 'r', 'm', 'C', 'o', 'd', 'e', '>', '<', 'V', 'a', 'l', 'u', 'e', '/', '>', '<', '/', 'P', 'a', 'r', 'm', '>', '\n', ' ', ' ', ' ', ' ', '<', 'r', 'e', 'c', '>', '\n', ' ', ' ', ' ', ' ', ' ', ' ', ' ', ' ', '<', 'k', '>', '1', '<', '/', 'k', '>', '\n', ' ', ' ', ' ', ' ', ' ', ' ', ' ', ' ', '<', 'l', '>', 'u', '<', '/', 'l', '>', '\n', ' ', ' ', ' ', ' ', ' ', ' ', ' ', ' ', '<', 'l', '>', ' ', 'v', ' ', '<', '/', 'l', '>', '\n', ' ', ' ', ' ', ' ', '<', '/', 'r', 'e', 'c', '>', '\n', ' ', ' ', ' ', ' ', '<', 'r', 'e', 'c', '/', '>', '\n', ' ', ' ', ' ', ' ', '<', 'm', 'i', 'x', '/', '>', '\n', ' ', ' ', ' ', ' ', '<', 'm', 'i', 'x', '>', '7', '<', '/', 'm', 'i', 'x', '>', '\n', ' ', ' ', ' ', ' ', '<', 'm', 'i', 'x', '>', '\n', ' ', ' ', ' ', ' ', ' ', ' ', ' ', ' ', '<', '!', '[', 'C', 'D', 'A', 'T', 'A', '[', ' ', 'x', '<', 'y', ' ', ']', ']', '>', '\n', ' ', ' ', ' ', ' ', '<', '/', 'm', 'i', 'x', '>', '\n', ' ', ' ', ' ', ' ', '<', 'n', '>', 'e', 'n', 'd', '<', '/', 'n', '>', '\n', '<', '/', 'r', '>']
+
+/-- `exListTree.to_xml(indent=0, encoding=None, quote="'")` -/
+def exListTreeXml0 : Str :=
+  ['<', 'r', '>', '\n', '<', 'a', '>', '&', 'l', 't', ';', '&', 'a', 'm', 'p', ';', '<', '/', 'a', '>', '\n', '<', 'a', '>', 'y', '<', '/', 'a', '>', '\n', '<', 'o', 'n', 'e', '>', 'x', '<', '/', 'o', 'n', 'e', '>', '<', 'P', 'a', 'r', 'm', '>', '<', 'P', 'a', 'r', 'm', 'C', 'o', 'd', 'e', '>', 'x', '<', '/', 'P', 'a', 'r', 'm', 'C', 'o', 'd', 'e', '>', '<', 'V', 'a', 'l', 'u', 'e', '>', 'T', 'r', 'u', 'e', '<', '/', 'V', 'a', 'l', 'u', 'e', '>', '<', '/', 'P', 'a', 'r', 'm', '>', '<', 'P', 'a', 'r', 'm', '>', '<', 'P', 'a', 'r', 'm', 'C', 'o', 'd', 'e', '>', 'p', '<', '/', 'P', 'a', 'r', 'm', 'C', 'o', 'd', 'e', '>', '<', 'V', 'a', 'l', 'u', 'e', '/', '>', '<', '/', 'P', 'a', 'r', 'm', '>', '\n', '<', 'r', 'e', 'c', '>', '\n', '<', 'k', '>', '1', '<', '/', 'k', '>', '\n', '<', 'l', '>', 'u', '<', '/', 'l', '>', '\n', '<', 'l', '>', ' ', 'v', ' ', '<', '/', 'l', '>', '\n', '<', '/', 'r', 'e', 'c', '>', '\n', '<', 'r', 'e', 'c', '/', '>', '\n', '<', 'm', 'i', 'x', '/', '>', '\n', '<', 'm', 'i', 'x', '>', '7', '<', '/', 'm', 'i', 'x', '>', '\n', '<', 'm', 'i', 'x', '>', '\n', '<', '!', '[', 'C', 'D', 'A', 'T', 'A', '[', ' ', 'x', '<', 'y', ' ', ']', ']', '>', '\n', '<', '/', 'm', 'i', 'x', '>', '\n', '<', 'n', '>', 'e', 'n', 'd', '<', '/', 'n', '>', '\n', '<', '/', 'r', '>']
+
+/-- what both load back as -/
+def exListTreeNorm : Val :=
+  .dict .n0 [(['r'], .dict .n0 [(['a'], .list .plain [.str ['<', '&'], .str ['y']]), (['o', 'n', 'e'], .str ['x']), (['P', 'a', 'r', 'm'], .list .plain [.dict .n0 [(['P', 'a', 'r', 'm', 'C', 'o', 'd', 'e'], .str ['x']), (['V', 'a', 'l', 'u', 'e'], .str ['T', 'r', 'u', 'e'])], .dict .n0 [(['P', 'a', 'r', 'm', 'C', 'o', 'd', 'e'], .str ['p']), (['V', 'a', 'l', 'u', 'e'], .none)]]), (['r', 'e', 'c'], .list .plain [.dict .n0 [(['k'], .str ['1']), (['l'], .list .plain [.str ['u'], .str ['v']])], .none]), (['m', 'i', 'x'], .list .plain [.none, .str ['7'], .str ['x', '<', 'y']]), (['n'], .str ['e', 'n', 'd'])])]
+
+example : xmlShaped true exListTree = true := by decide
+example : toXml Cfg.gen optsDefault exListTree = .ok exListTreeXml := by decide +kernel
+example : toXml Cfg.gen optsBare exListTree = .ok exListTreeXml0 := by decide +kernel
+example : normRoot Cfg.gen exListTree = exListTreeNorm := by decide +kernel
+example : loadXml exListTreeXml = .ok exListTreeNorm := by decide +kernel
+example : loadXml exListTreeXml0 = .ok exListTreeNorm := by decide +kernel
+example : readStatus exListTreeXml = none := by decide +kernel
+/-- the hypotheses of `C12_attribute_not_implemented`: `{'r': {'a': ['x', 'y'], '@id': '7', 'b': None}}` -/
+example : keysNodup [(['a'], Val.list .plain [.str ['x'], .str ['y']])] = true ∧
+    shapedKvs true [(['a'], Val.list .plain [.str ['x'], .str ['y']])] = true ∧ isScalarVal (.str ['7']) = true := by decide
+example : toXml Cfg.gen optsDefault
+    (.dict .n0 [(['r'], .dict .plain ([(['a'], Val.list .plain [.str ['x'], .str ['y']])] ++ ('@' :: ['i', 'd'], .str ['7']) :: [(['b'], .none)]))])
+    = .error .NotImplementedError := by decide +kernel
 
 end N0.C12
